@@ -54,11 +54,17 @@ pub fn env_dump(p: &Puppet, spec: &EnvSpec, before: HashMap<String, Callback>, a
         _guard_r = Some(FP_LOCK.read().unwrap_or_else(|e| e.into_inner()));
         _guard_w = None;
     }
-    let mut fp = FailSpotName::testing_client();
-    for (i, (_, f)) in FAILPOINTS.iter().enumerate() {
-        if spec.failpoints & (1 << i) != 0 {
-            fp.set_enabled(*f, true);
+    // failspot's testing client holds a process-global mutex for its whole lifetime: only take it
+    // when fail points are actually requested, otherwise every dump in the process would serialise
+    let mut fp = None;
+    if spec.failpoints != 0 {
+        let mut c = FailSpotName::testing_client();
+        for (i, (_, f)) in FAILPOINTS.iter().enumerate() {
+            if spec.failpoints & (1 << i) != 0 {
+                c.set_enabled(*f, true);
+            }
         }
+        fp = Some(c);
     }
     let mut e = Env::new(p.pid, tids_of(p));
     for (k, a) in &spec.plan {
